@@ -65,15 +65,24 @@ def gen_world(seed, idx, quick, tagp="c04"):
     import random
     rng = random.Random("C04-world/%s/%d" % (seed, idx))
     n = rng.randint(3, 16 if quick else 40)
-    spec = W.gen_spec(rng, n, fault_rate=0.25)
+    spec = W.gen_spec(rng, n, fault_rate=0.25, islands=rng.choice([1, 2, 3, 4]))
     seeds = W.gen_seeds(rng, spec, rate=0.08)
     for cid in range(n):          # ignore entries only on seeded keys (execution contexts): the theorem's hypothesis
         if seeds and rng.random() < 0.08:
             spec[cid]["ignore"] = [rng.choice(seeds)[0]]
-    targets = sorted(set(rng.randrange(n) for _ in range(rng.randint(2, 6))))
+    targets = sorted(set(rng.randrange(n) for _ in range(rng.randint(2, 8))))
     ss = rng.random() < 0.5
     world = W.World(spec, "%s_%d_%d" % (tagp, seed, idx))
-    return world, spec, seeds, targets, ss
+    graph = world.graph_for(targets)
+    dropped = None
+    if idx % 4 == 1:
+        # a graph dict that is NOT closed under dependencies (what the group filter of insights._run can produce):
+        # a component some key depends on is left out; it must then be evaluated by NO schedule
+        inner = sorted(set(world.ids[d] for v in graph.values() for d in v if d in graph))
+        if inner:
+            dropped = rng.choice(inner)
+            del graph[world.comps[dropped]]
+    return world, spec, seeds, targets, ss, graph, dropped
 
 
 def interleave(rng, orders):
@@ -104,9 +113,10 @@ def run(chk):
     sub_lines, sub_impl, sub_cases = [], [], []
     summary = []
     for idx in range(n_worlds):
-        world, spec, seeds, targets, ss = gen_world(chk.seed, idx, quick)
-        graph = world.graph_for(targets)
-        base_case = {"spec": W.strip(spec), "seeds": seeds, "targets": targets, "store_skips": ss}
+        world, spec, seeds, targets, ss, graph, dropped = gen_world(chk.seed, idx, quick)
+        if dropped is not None:
+            chk.count("non-closed-graph")
+        base_case = {"spec": W.strip(spec), "seeds": seeds, "targets": targets, "store_skips": ss, "dropped": dropped}
         lines.extend(world.lines(seeds))
         results = []
 
@@ -228,8 +238,7 @@ def child(seed, n, quick):
     """regenerate the first n worlds of run() and print dr.run's canonical results (run under another PYTHONHASHSEED)"""
     out = []
     for idx in range(n):
-        world, spec, seeds, targets, ss = gen_world(seed, idx, bool(quick), tagp="c04child")
-        graph = world.graph_for(targets)
+        world, spec, seeds, targets, ss, graph, dropped = gen_world(seed, idx, bool(quick), tagp="c04child")
         r = W.evaluate(world, seeds, ss, graph, mode="run")
         out.append(plain(r.text) if r.error is None else "ERROR")
     sys.stdout.write(json.dumps(out))
@@ -246,6 +255,8 @@ def replay(data):
         return 1
     import random
     world, seeds, graph = W.rebuild(case)
+    if case.get("dropped") is not None:
+        graph.pop(world.comps[case["dropped"]], None)
     ss = case["store_skips"]
     g2 = lambda: dict((k, set(v)) for k, v in graph.items())
     ref = W.evaluate(world, seeds, ss, graph, mode="run")
@@ -271,7 +282,9 @@ def replay(data):
         for k in sg:
             cnt[k] = cnt.get(k, 0) + 1
     if any(v != 1 for v in cnt.values()) or set(cnt) != set(graph):
-        print("get_subgraphs does not partition the graph: %s" % sorted((world.ids.get(k), v) for k, v in cnt.items() if v != 1))
+        print("get_subgraphs does not partition the graph: multiplicities %s, foreign %s, lost %s" % (
+            sorted((world.ids.get(k), v) for k, v in cnt.items() if v != 1),
+            sorted(world.ids.get(k, "?") for k in cnt if k not in graph), sorted(world.ids[k] for k in graph if k not in cnt)))
         bad = True
     for name, fn in (("run_incremental", lambda b: list(dr.run_incremental(g2(), b))),
                      ("run_all/defer", lambda b: dr.run_all(g2(), b, DeferPool(random.Random(0)))),
